@@ -216,6 +216,43 @@ def explore(ctx):
                 ctx.corr('Model.Reader.read_lines', {'tree': t.to_json(), 'cwd': os.path.relpath(cwd, root), 'incs': list(incs),
                                                      'top': top.replace(root, '<root>')},
                          str(real).replace(root, '<root>')[:600], str(m).replace(root, '<root>')[:600])
+        # ---- WHOLE-MODEL correspondence: Proofs/Whole.v assemble_model (reader + lexer + parser + 16 passes composed inside Coq, the
+        # object the C13 / C14 / C15 whole-model theorems speak about) against the real asm.assemble on the same trees
+        import pipeline
+        wterms, wreals, wmeta = [], [], []
+        for i, t in enumerate(trees + etrees):
+            if 'include_bytes' in t.feats or any(isinstance(v, bytes) for v in t.files.values()):
+                continue            # outside assemble_model (Unsupported); covered by Proofs/IncBytesWhole.v + the reader / pipeline ties
+            root = os.path.join(base, 't{}'.format(i))
+            if root not in fs_names:
+                continue
+            main_abs = os.path.join(root, t.main)
+            inc_abs = [os.path.normpath(os.path.join(root, d)) for d in t.incs]
+            cwd = os.path.normpath(os.path.join(root, t.cwds[i % len(t.cwds)]))
+            for cmp_ in (False, True):
+                old_cwd = os.getcwd()
+                os.chdir(cwd)
+                try:
+                    wreals.append(pipeline.run_real(asm, main_abs, cmp_, include_dirs=list(inc_abs)))
+                finally:
+                    os.chdir(old_cwd)
+                wterms.append('match assemble_model 8 {} {} {} {} [] [] {} with WDone r => render (Done r) | WFail e => render (Fail e) '
+                              '| WUnsup => "UNSUP" end'.format(fs_names[root], fe.cbytes(cwd), fe.clist(fe.cbytes(d) for d in inc_abs),
+                                                               fe.cbytes(main_abs), 'true' if cmp_ else 'false'))
+                wmeta.append((t, root, cwd, cmp_))
+        if wterms:
+            wans = fe.run_terms('Base.PyBase Model.Items Model.Passes Model.Render Model.Reader Proofs.Whole', wterms, preamble=preamble, shard=30)
+            for (t, root, cwd, cmp_), real, a in zip(wmeta, wreals, wans):
+                m = pipeline.parse_model(a)
+                if m['status'] in ('UNSUP', 'MODEL-ERROR') and a is not None:
+                    ctx.unsupported += 1
+                    continue
+                ctx.traces_validated += 1
+                ctx.count('whole-model-' + real['status'])
+                if not pipeline.same(real, m):
+                    ctx.corr('Proofs.Whole.assemble_model', {'tree': t.to_json(), 'cwd': os.path.relpath(cwd, root), 'compress': cmp_},
+                             str(pipeline.brief(real)).replace(root, '<root>')[:600],
+                             (str(pipeline.brief(m)) if m['status'] != 'MODEL-ERROR' else 'model evaluation failed').replace(root, '<root>')[:600])
         if trees:
             ctx.sample({'tree': trees[0].to_json()})
     finally:
